@@ -350,36 +350,40 @@ class Crazyflie():
             raise Exception('Data part of packet is too large')
 
         self._send_lock.acquire()
-        if self.link is not None:
-            if len(expected_reply) > 0 and not resend and \
-                    self.link.needs_resending:
-                pattern = (pk.header,) + expected_reply
-                logger.debug(
-                    'Sending packet and expecting the %s pattern back',
-                    pattern)
-                new_timer = Timer(timeout,
-                                  lambda: self._no_answer_do_retry(pk,
-                                                                   pattern))
-                self._answer_patterns[pattern] = new_timer
-                new_timer.start()
-            elif resend:
-                # Check if we have gotten an answer, if not try again
-                pattern = expected_reply
-                if pattern in self._answer_patterns:
-                    logger.debug('We want to resend and the pattern is there')
-                    if self._answer_patterns[pattern]:
-                        new_timer = Timer(timeout,
-                                          lambda:
-                                          self._no_answer_do_retry(
-                                              pk, pattern))
-                        self._answer_patterns[pattern] = new_timer
-                        new_timer.start()
-                else:
-                    logger.debug('Resend requested, but no pattern found: %s',
-                                 self._answer_patterns)
-            self.link.send_packet(pk)
-            self.packet_sent.call(pk)
-        self._send_lock.release()
+        try:
+            # Use a local reference, the link can be closed by another thread at any time
+            link = self.link
+            if link is not None:
+                if len(expected_reply) > 0 and not resend and \
+                        link.needs_resending:
+                    pattern = (pk.header,) + expected_reply
+                    logger.debug(
+                        'Sending packet and expecting the %s pattern back',
+                        pattern)
+                    new_timer = Timer(timeout,
+                                      lambda: self._no_answer_do_retry(pk,
+                                                                       pattern))
+                    self._answer_patterns[pattern] = new_timer
+                    new_timer.start()
+                elif resend:
+                    # Check if we have gotten an answer, if not try again
+                    pattern = expected_reply
+                    if pattern in self._answer_patterns:
+                        logger.debug('We want to resend and the pattern is there')
+                        if self._answer_patterns[pattern]:
+                            new_timer = Timer(timeout,
+                                              lambda:
+                                              self._no_answer_do_retry(
+                                                  pk, pattern))
+                            self._answer_patterns[pattern] = new_timer
+                            new_timer.start()
+                    else:
+                        logger.debug('Resend requested, but no pattern found: %s',
+                                     self._answer_patterns)
+                link.send_packet(pk)
+                self.packet_sent.call(pk)
+        finally:
+            self._send_lock.release()
 
     def is_called_by_incoming_handler_thread(self):
         return current_thread() == self.incoming
